@@ -83,6 +83,74 @@ def rebindable_attrs(db, ci):
     return out
 
 
+def attr_writers(db, ci):
+    """{attr: [FunctionInfo, ...]} every method / setter other than __init__ of a related class that re-binds self.<attr>."""
+    out = {}
+    for mi in db.modules.values():
+        for c in mi.classes.values():
+            try:
+                related = ci in c.mro() or c in ci.mro()
+            except Exception:  # noqa: BLE001
+                related = False
+            if not related:
+                continue
+            for mname, m in list(c.methods.items()) + [(n_ + ".setter", f_) for n_, f_ in c.setters.items()]:
+                if mname == "__init__":
+                    continue
+                for node in ast.walk(m.node):
+                    tg = node.targets if isinstance(node, ast.Assign) else [node.target] if isinstance(node, (ast.AugAssign, ast.AnnAssign)) else []
+                    for t in tg:
+                        for x in ast.walk(t):
+                            if isinstance(x, ast.Attribute) and isinstance(x.value, ast.Name) and x.value.id == "self" and isinstance(x.ctx, ast.Store):
+                                if m not in out.setdefault(x.attr, []):
+                                    out[x.attr].append(m)
+    return out
+
+
+def invalidates(fn_node, name):
+    """The function drops the cached entry `name` of self: del self.name / delattr(self, "name") / self.__dict__.pop("name", ...) /
+    vars(self).pop("name", ...) / del self.__dict__["name"] / self.__dict__.clear()."""
+    for n in ast.walk(fn_node):
+        if isinstance(n, ast.Delete):
+            for t in n.targets:
+                if isinstance(t, ast.Attribute) and isinstance(t.value, ast.Name) and t.value.id == "self" and t.attr == name:
+                    return True
+                if isinstance(t, ast.Subscript) and ast.unparse(t.value) in ("self.__dict__", "vars(self)") and isinstance(t.slice, ast.Constant) and t.slice.value == name:
+                    return True
+        if isinstance(n, ast.Call):
+            src = ast.unparse(n.func)
+            if src == "delattr" and len(n.args) == 2 and ast.unparse(n.args[0]) == "self" and isinstance(n.args[1], ast.Constant) and n.args[1].value == name:
+                return True
+            if src in ("self.__dict__.pop", "vars(self).pop") and n.args and isinstance(n.args[0], ast.Constant) and n.args[0].value == name:
+                return True
+            if src in ("self.__dict__.clear", "vars(self).clear"):
+                return True
+    return False
+
+
+def self_reads(ci, fi, depth=0, seen=None):
+    """Attributes of self a method reads, directly or through other methods / properties of its class hierarchy."""
+    seen = set() if seen is None else seen
+    if fi is None or fi.qualname in seen or depth > 4:
+        return set()
+    seen.add(fi.qualname)
+    mro = [c for c in ci.mro() if hasattr(c, "methods")]
+    out = set()
+    for n in ast.walk(fi.node):
+        if isinstance(n, ast.Attribute) and isinstance(n.value, ast.Name) and n.value.id == "self" and isinstance(n.ctx, ast.Load):
+            out.add(n.attr)
+            tgt = next((c.methods[n.attr] for c in mro if n.attr in c.methods), None)
+            out |= self_reads(ci, tgt, depth + 1, seen)
+    return out
+
+
+def stale_cache_attrs(db, ci, fi, name):
+    """Re-bindable attributes a functools-cached method of `ci` depends on whose writers do not all drop the cached entry `name`."""
+    rb = rebindable_attrs(db, ci)
+    writers = attr_writers(db, ci)
+    return [(a, rb[a]) for a in sorted(self_reads(ci, fi)) if a in rb and not all(invalidates(w.node, name) for w in writers.get(a, []))]
+
+
 def memo_stale(db, e):
     """Receiver attributes the stored value depends on that a public method re-binds later (the entry would go stale)."""
     v = e.get("value")
@@ -346,6 +414,22 @@ def global_state_rule(ctx, chk, rule="R10.1", modules=None, strict=True):
             # functools cache of a module-level function: keyed by the (hashable) argument values; unobservable when the function is pure
             chk.hold(rule, "functools-cache:%s" % name, "%s on a module-level function: keyed by argument values" % how, nontrivial=False)
             continue
+        if ksrc.startswith("self (the object") and "cached_property" in how:
+            # a per-object cached_property: coherent (and unobservable) iff nothing it depends on is re-bound later without dropping the entry
+            owner = None
+            for mi in ctx.db.modules.values():
+                for c in mi.classes.values():
+                    m_ = c.methods.get(name)
+                    if m_ is not None and mi.qualname == mq and m_.node.lineno == line:
+                        owner, fi_ = c, m_
+            if owner is not None:
+                stale = stale_cache_attrs(ctx.db, owner, fi_, name)
+                if not stale:
+                    chk.hold(rule, "cached-property:%s" % name, "cached_property %s reads no attribute that is re-bound without invalidating it" % name, nontrivial=False)
+                else:
+                    chk.violation(rule, writer, "global-state:%s:stale-cache" % name, "%s %s depends on self.%s, which %s re-binds without dropping the cached value" % (how, name, stale[0][0], stale[0][1]),
+                                  "repeating a query returns the result for the object's current scores", "%s line %d" % (mq, line))
+                continue
         ident = any(tok in ksrc for tok in ("id(", "hash(", "repr(", "self (the object"))
         msg = "module-level %s written by %s (%s%s)" % (name, writer.split(".")[-1], how, ", key " + ksrc[:80] if ksrc else "")
         if ident:
@@ -358,6 +442,7 @@ def global_state_rule(ctx, chk, rule="R10.1", modules=None, strict=True):
         chk.hold(rule, "no-global-state" + ("" if modules is None else ":" + ",".join(modules)), "no module-level mutable container is written from a function body; no functools cache", nontrivial=False)
 
 
+MERGE_FLAG = True   # see purity(): scalar guard-clause helpers are summarised inside the effect sweep
 TOLERANCE_FNS = {"isclose", "allclose", "m:round", "round", "around"}
 _SIZE_FNS = {"len", "shape", "ndim", "size", "attr:shape", "attr:ndim", "attr:size", "attr:dtype"}
 
@@ -430,13 +515,17 @@ def purity(ctx, chk, only=None, strict=None):
     if strict is None:
         strict = only is None
     n = 0
+    if only is not None and any(p_.startswith(("Scores.", "GroupScores.")) for p_ in only):
+        # functools caches (cached_property / lru_cache) in the modules behind the explored methods must be coherent: the evaluator gives a
+        # cached_property the value semantics of a property, so staleness is decided here (FraudScores' setters re-bind pos / neg)
+        global_state_rule(ctx, chk, rule="R10.1", modules=("scores", "group_scores"), strict=False)
     for label, q, thunk in targets(ctx):
         if only is not None and not any(label.startswith(p_) for p_ in only):
             continue
         try:
             # the sweep reads effects, not values: scalar `if c: return a / return b` helpers called from the target are summarised
             # as one selected value instead of one path per outcome (keeps guard-clause forms of the ratio properties from multiplying eer's paths)
-            ctx.ev.merge_scalar_returns = True
+            ctx.ev.merge_scalar_returns = MERGE_FLAG
             try:
                 outs = ctx.explore(thunk, chk)
             finally:
